@@ -288,6 +288,9 @@ def nibabel_image_to_precomputed(img,
         prescaling_inter = proxy.inter
         proxy._slope = prescaling_slope * postscaling_slope
         proxy._inter = prescaling_inter * postscaling_slope + postscaling_inter
+        # Nibabel skips the scaling, and returns the on-disk data type, when
+        # the combined slope and intercept are exactly 1 and 0
+        input_dtype = proxy[tuple(0 for _ in shape)].dtype
 
     # Transformations applied to the voxel values
     chunk_transformer = (
